@@ -17,7 +17,7 @@ import (
 func init() {
 	register(&Prop{
 		ID: "C12", Level: "exploration",
-		Rule: "one case = 1-3 client tasks and an optional writer task under the seeded scheduler; every request carries a unique token in every observable field (parameter values, path, query string, request header, host label) and its handler derives response header, status and body length from the token; request shapes are drawn from direct match, ignored trailing slash (parameters come from the slash-adjusted copy), redirect, 404/405/OPTIONS handlers, manual Lookup with and without Close, CloneWith and Clone; iterator sequences (Iter.Reverse/Routes/Prefix) obtained earlier by the task and ranged again inside a later handler or while a Lookup context is held (must yield what they yielded first and leave the request's context alone); handlers yield so that other requests start, finish and recycle contexts in between, and the writer task replaces the tree between requests (contexts are pooled per tree version). Oracle inside every handler, before and after each yield: every Context getter shows the current request's token and nothing of another request; writer status/size/written start clean; route, pattern, scope as the reference dispatcher says. A Clone taken in request A is re-inspected after every later request of its task and at the end: identical to its first fingerprint and free of any other token (including response headers). Non-trivial: a context was re-observed after another task ran, or a clone was re-inspected after a later request; distinct = hash of (programs, schedule).",
+		Rule: "one case = 1-3 client tasks and an optional writer task under the seeded scheduler; every request carries a unique token in every observable field (parameter values, path, query string, request header, host label) and its handler derives response header, status and body length from the token; request shapes are drawn from direct match, ignored trailing slash (parameters come from the slash-adjusted copy), redirect, 404/405/OPTIONS handlers, manual Lookup with and without Close, CloneWith and Clone, a handler that hijacks its connection; iterator sequences (Iter.Reverse/Routes/Prefix) obtained earlier by the task and ranged again inside a later handler or while a Lookup context is held (must yield what they yielded first and leave the request's context alone); handlers yield so that other requests start, finish and recycle contexts in between, and the writer task replaces the tree between requests (contexts are pooled per tree version). Oracle inside every handler, before and after each yield: every Context getter shows the current request's token and nothing of another request; writer status/size/written start clean; route, pattern, scope as the reference dispatcher says. A Clone taken in request A is re-inspected after every later request of its task and at the end: identical to its first fingerprint and free of any other token (including response headers). Non-trivial: a context was re-observed after another task ran, or a clone was re-inspected after a later request; distinct = hash of (programs, schedule).",
 		Run:  runC12, Quick: 64000, Thorough: 9600000,
 		Real:   []string{"request Context and its reset variants", "sync.Pool recycling per tree version (deterministic: GOMAXPROCS=1, GC off during a run)", "Clone/CloneWith", "ServeHTTP dispatch", "recorder ResponseWriter"},
 		Stub:   commonStub,
@@ -166,7 +166,7 @@ func runC12(src sim.Source, o Opts) *Result {
 		routeDesc = append(routeDesc, r.Method+" "+r.Pattern)
 	}
 	res.Case["routes"] = routeDesc
-	shapes := []string{"seq", "lookup-clone", "nomethod", "options", "direct", "direct", "tsr", "redirect-or-ignore", "notfound", "nomethod", "options", "lookup", "lookup-noclose", "clonewith", "clone", "clone"}
+	shapes := []string{"seq", "lookup-clone", "nomethod", "options", "hijack", "direct", "direct", "tsr", "redirect-or-ignore", "notfound", "nomethod", "options", "lookup", "lookup-noclose", "clonewith", "clone", "clone"}
 	type reqPlan struct {
 		Shape   string
 		Route   int
@@ -350,6 +350,12 @@ func runC12(src sim.Source, o Opts) *Result {
 						check("after a yield")
 						cc.Close()
 					}
+					if pl.Shape == "hijack" {
+						// the connection is taken over (websocket style): whoever gets this pooled context next must find a
+						// working writer again
+						_, _, _ = c.Writer().Hijack()
+						return
+					}
 					if sv.Kind == model.KRoute {
 						c.Writer().WriteHeader(status)
 						_, _ = c.Writer().Write([]byte(strings.Repeat("b", bodyLen)))
@@ -417,6 +423,12 @@ func runC12(src sim.Source, o Opts) *Result {
 					req := world.NewRequest(method, host, path, "", "tok="+tok, log)
 					req.Header.Set("X-Token", tok)
 					conn := world.NewConn()
+					if pl.Shape == "hijack" {
+						w.R.ServeHTTP(conn.Wrap(world.NormCaps(world.Caps{Hijacker: true})), req)
+						checkClones(fmt.Sprintf("after request %s", tok))
+						s.Yield(sim.PtUser)
+						continue
+					}
 					w.R.ServeHTTP(conn, req)
 					last := model.Kind(-1)
 					for _, h := range log.Hits {
